@@ -39,6 +39,9 @@ def run_harness(res, binpath, tier, seed, extra_args=()):
         if rc != 0:
             res.violation(None, "harness crashed", {"kind": "harness-crash", "output": o[-4000:]}, no_input=True)
             return None
+        pf = os.path.join(out, "preds.v")
+        if os.path.exists(pf):
+            res.preds_lines = open(pf).read().split("\n")[:-1]
         return (open(os.path.join(out, "cases.v")).read(),
                 json.load(open(os.path.join(out, "cases.json"))),
                 json.load(open(os.path.join(out, "summary.json"))))
